@@ -24,4 +24,496 @@ theorem runFrom_of_stuck {s : State} (h : stuck s = true) (σ : List Nat) : runF
     rw [this, step_none_of_stuck h t]
     exact ih
 
+/-! ## Structural API -/
+
+/-- the connection a program counter holds (same as `Thread.pcConn`, as a function of the pc) -/
+def Pc.conn : Pc → Option ConnId
+  | .send c .. => some c
+  | .recv c .. => some c
+  | .putCheck i _ | .putLoad i _ | .putQ i _ | .fullClose i _ | .warnLoad i _ | .discard i _ => i
+  | .drainClose x => x
+  | _ => none
+
+/-- `1` when the program counter is inside a checkout (between a successful `get` and the end of
+the matching `_put_conn`) or holds an item taken by `close`'s drain loop -/
+def Pc.slots : Pc → Nat
+  | .send .. | .recv .. => 1
+  | .putCheck .. | .putLoad .. | .putQ .. | .fullClose .. | .warnLoad .. | .discard .. => 1
+  | .drainClose _ => 1
+  | _ => 0
+
+@[simp] theorem Pc.conn_idle : Pc.idle.conn = none := rfl
+@[simp] theorem Pc.slots_idle : Pc.idle.slots = 0 := rfl
+@[simp] theorem Pc.conn_getCheck {f l s} : (Pc.getCheck f l s).conn = none := rfl
+@[simp] theorem Pc.slots_getCheck {f l s} : (Pc.getCheck f l s).slots = 0 := rfl
+@[simp] theorem Pc.conn_getLoad {f l s} : (Pc.getLoad f l s).conn = none := rfl
+@[simp] theorem Pc.slots_getLoad {f l s} : (Pc.getLoad f l s).slots = 0 := rfl
+@[simp] theorem Pc.conn_getQ {f l s} : (Pc.getQ f l s).conn = none := rfl
+@[simp] theorem Pc.slots_getQ {f l s} : (Pc.getQ f l s).slots = 0 := rfl
+@[simp] theorem Pc.conn_send {c f l s} : (Pc.send c f l s).conn = some c := rfl
+@[simp] theorem Pc.slots_send {c f l s} : (Pc.send c f l s).slots = 1 := rfl
+@[simp] theorem Pc.conn_recv {c t f l s} : (Pc.recv c t f l s).conn = some c := rfl
+@[simp] theorem Pc.slots_recv {c t f l s} : (Pc.recv c t f l s).slots = 1 := rfl
+@[simp] theorem Pc.conn_putCheck {i k} : (Pc.putCheck i k).conn = i := rfl
+@[simp] theorem Pc.slots_putCheck {i k} : (Pc.putCheck i k).slots = 1 := rfl
+@[simp] theorem Pc.conn_putLoad {i k} : (Pc.putLoad i k).conn = i := rfl
+@[simp] theorem Pc.slots_putLoad {i k} : (Pc.putLoad i k).slots = 1 := rfl
+@[simp] theorem Pc.conn_putQ {i k} : (Pc.putQ i k).conn = i := rfl
+@[simp] theorem Pc.slots_putQ {i k} : (Pc.putQ i k).slots = 1 := rfl
+@[simp] theorem Pc.conn_fullClose {i k} : (Pc.fullClose i k).conn = i := rfl
+@[simp] theorem Pc.slots_fullClose {i k} : (Pc.fullClose i k).slots = 1 := rfl
+@[simp] theorem Pc.conn_warnLoad {i k} : (Pc.warnLoad i k).conn = i := rfl
+@[simp] theorem Pc.slots_warnLoad {i k} : (Pc.warnLoad i k).slots = 1 := rfl
+@[simp] theorem Pc.conn_discard {i k} : (Pc.discard i k).conn = i := rfl
+@[simp] theorem Pc.slots_discard {i k} : (Pc.discard i k).slots = 1 := rfl
+@[simp] theorem Pc.conn_closeCheck : Pc.closeCheck.conn = none := rfl
+@[simp] theorem Pc.slots_closeCheck : Pc.closeCheck.slots = 0 := rfl
+@[simp] theorem Pc.conn_closeSwap : Pc.closeSwap.conn = none := rfl
+@[simp] theorem Pc.slots_closeSwap : Pc.closeSwap.slots = 0 := rfl
+@[simp] theorem Pc.conn_drain : Pc.drain.conn = none := rfl
+@[simp] theorem Pc.slots_drain : Pc.drain.slots = 0 := rfl
+@[simp] theorem Pc.conn_drainClose {x} : (Pc.drainClose x).conn = x := rfl
+@[simp] theorem Pc.slots_drainClose {x} : (Pc.drainClose x).slots = 1 := rfl
+
+/-- the continuation of the `_put_conn` call a program counter is in -/
+def Pc.cont : Pc → Option Cont
+  | .putCheck _ k | .putLoad _ k | .putQ _ k | .fullClose _ k | .warnLoad _ k | .discard _ k => some k
+  | _ => none
+
+@[simp] theorem Pc.cont_idle : Pc.idle.cont = none := rfl
+@[simp] theorem Pc.cont_getCheck {f l s} : (Pc.getCheck f l s).cont = none := rfl
+@[simp] theorem Pc.cont_getLoad {f l s} : (Pc.getLoad f l s).cont = none := rfl
+@[simp] theorem Pc.cont_getQ {f l s} : (Pc.getQ f l s).cont = none := rfl
+@[simp] theorem Pc.cont_send {c f l s} : (Pc.send c f l s).cont = none := rfl
+@[simp] theorem Pc.cont_recv {c t f l s} : (Pc.recv c t f l s).cont = none := rfl
+@[simp] theorem Pc.cont_putCheck {i k} : (Pc.putCheck i k).cont = some k := rfl
+@[simp] theorem Pc.cont_putLoad {i k} : (Pc.putLoad i k).cont = some k := rfl
+@[simp] theorem Pc.cont_putQ {i k} : (Pc.putQ i k).cont = some k := rfl
+@[simp] theorem Pc.cont_fullClose {i k} : (Pc.fullClose i k).cont = some k := rfl
+@[simp] theorem Pc.cont_warnLoad {i k} : (Pc.warnLoad i k).cont = some k := rfl
+@[simp] theorem Pc.cont_discard {i k} : (Pc.discard i k).cont = some k := rfl
+@[simp] theorem Pc.cont_closeCheck : Pc.closeCheck.cont = none := rfl
+@[simp] theorem Pc.cont_closeSwap : Pc.closeSwap.cont = none := rfl
+@[simp] theorem Pc.cont_drain : Pc.drain.cont = none := rfl
+@[simp] theorem Pc.cont_drainClose {x} : (Pc.drainClose x).cont = none := rfl
+
+/-- number of pool slots a thread holds: its checkout in flight + its streaming responses -/
+def Thread.slots (th : Thread) : Nat := th.pc.slots + th.resp.toList.length + th.leaked.length
+
+theorem Thread.pcConn_eq (th : Thread) : th.pcConn = th.pc.conn := by
+  unfold Thread.pcConn; cases th.pc <;> rfl
+
+theorem Thread.owned_eq (th : Thread) : th.owned = th.pc.conn.toList ++ th.resp.toList ++ th.leaked := by
+  simp [Thread.owned, Thread.pcConn_eq]
+
+theorem Thread.mem_owned {th : Thread} {c : ConnId} :
+    c ∈ th.owned ↔ th.pc.conn = some c ∨ th.resp = some c ∨ c ∈ th.leaked := by
+  simp [Thread.owned_eq]
+
+@[simp] theorem finish_pc (th : Thread) (r : Res) : (finish th r).pc = .idle := by
+  unfold finish; split <;> rfl
+@[simp] theorem finish_resp (th : Thread) (r : Res) : (finish th r).resp = th.resp := by
+  unfold finish; split <;> rfl
+@[simp] theorem finish_leaked (th : Thread) (r : Res) : (finish th r).leaked = th.leaked := by
+  unfold finish; split <;> rfl
+@[simp] theorem finish_sent (th : Thread) (r : Res) : (finish th r).sent = th.sent := by
+  unfold finish; split <;> rfl
+
+@[simp] theorem applyCont_resp (th : Thread) (k : Cont) : (applyCont th k).resp = th.resp := by
+  cases k <;> simp [applyCont]
+@[simp] theorem applyCont_leaked (th : Thread) (k : Cont) : (applyCont th k).leaked = th.leaked := by
+  cases k <;> simp [applyCont]
+@[simp] theorem applyCont_sent (th : Thread) (k : Cont) : (applyCont th k).sent = th.sent := by
+  cases k <;> simp [applyCont]
+@[simp] theorem applyCont_pc_conn (th : Thread) (k : Cont) : (applyCont th k).pc.conn = none := by
+  cases k <;> simp [applyCont]
+@[simp] theorem applyCont_pc_cont (th : Thread) (k : Cont) : (applyCont th k).pc.cont = none := by
+  cases k <;> simp [applyCont]
+theorem applyCont_pc (th : Thread) (k : Cont) :
+    (applyCont th k).pc = .idle ∨ ∃ f l s, (applyCont th k).pc = .getCheck f l s := by
+  cases k <;> simp [applyCont]
+@[simp] theorem applyCont_pc_ne_warnLoad (th : Thread) (k i k') :
+    (applyCont th k).pc ≠ .warnLoad i k' := by
+  cases k <;> simp [applyCont]
+@[simp] theorem applyCont_pc_ne_fullClose (th : Thread) (k i k') :
+    (applyCont th k).pc ≠ .fullClose i k' := by
+  cases k <;> simp [applyCont]
+@[simp] theorem applyCont_pc_ne_recv (th : Thread) (k c t f l s) :
+    (applyCont th k).pc ≠ .recv c t f l s := by
+  cases k <;> simp [applyCont]
+@[simp] theorem applyCont_pc_slots (th : Thread) (k : Cont) : (applyCont th k).pc.slots = 0 := by
+  cases k <;> simp [applyCont]
+
+@[simp] theorem failPut_pc (th : Thread) (i k r) : (failPut th i k r).pc = .idle := by
+  cases k <;> simp [failPut]
+@[simp] theorem failPut_leaked (th : Thread) (i k r) : (failPut th i k r).leaked = th.leaked := by
+  cases k <;> simp [failPut]
+@[simp] theorem failPut_sent (th : Thread) (i k r) : (failPut th i k r).sent = th.sent := by
+  cases k <;> simp [failPut]
+theorem failPut_resp (th : Thread) (i k r) :
+    (failPut th i k r).resp = if k = .rel then i else th.resp := by
+  cases k <;> simp [failPut]
+
+@[simp] theorem closeConn_queue (sh x) : (closeConn sh x).queue = sh.queue := by cases x <;> rfl
+@[simp] theorem closeConn_nextId (sh x) : (closeConn sh x).nextId = sh.nextId := by cases x <;> rfl
+@[simp] theorem closeConn_poolRef (sh x) : (closeConn sh x).poolRef = sh.poolRef := by cases x <;> rfl
+@[simp] theorem closeConn_wire (sh x) : (closeConn sh x).wire = sh.wire := by cases x <;> rfl
+@[simp] theorem closeConn_maxOpen (sh x) : (closeConn sh x).maxOpen = sh.maxOpen := by cases x <;> rfl
+@[simp] theorem mem_closeConn_openC (sh x c) :
+    c ∈ (closeConn sh x).openC ↔ c ∈ sh.openC ∧ x ≠ some c := by
+  cases x <;> simp [closeConn]
+  grind
+theorem closeConn_openC_nodup (sh x) (h : sh.openC.Nodup) : (closeConn sh x).openC.Nodup := by
+  cases x <;> simp [closeConn, h]; exact h.filter _
+theorem closeConn_openC_length (sh x) : (closeConn sh x).openC.length ≤ sh.openC.length := by
+  cases x <;> simp [closeConn, List.length_filter_le]
+
+@[simp] theorem openConn_queue (sh c) : (openConn sh c).queue = sh.queue := by
+  unfold openConn; split <;> rfl
+@[simp] theorem openConn_nextId (sh c) : (openConn sh c).nextId = sh.nextId := by
+  unfold openConn; split <;> rfl
+@[simp] theorem openConn_poolRef (sh c) : (openConn sh c).poolRef = sh.poolRef := by
+  unfold openConn; split <;> rfl
+@[simp] theorem openConn_wire (sh c) : (openConn sh c).wire = sh.wire := by
+  unfold openConn; split <;> rfl
+@[simp] theorem mem_openConn_openC (sh c d) : d ∈ (openConn sh c).openC ↔ d = c ∨ d ∈ sh.openC := by
+  unfold openConn; split <;> simp_all
+theorem openConn_openC_nodup (sh c) (h : sh.openC.Nodup) : (openConn sh c).openC.Nodup := by
+  unfold openConn; split <;> simp_all
+theorem openConn_maxOpen (sh c) :
+    (openConn sh c).maxOpen = sh.maxOpen ∨
+      (openConn sh c).maxOpen = max sh.maxOpen (openConn sh c).openC.length := by
+  unfold openConn; split <;> simp
+
+theorem mem_queueConns {sh : Shared} {c : ConnId} : c ∈ queueConns sh ↔ some c ∈ sh.queue := by
+  simp [queueConns]
+
+@[simp] theorem wireGet_wireSet_self (w c t) : wireGet (wireSet w c t) c = some t := by
+  simp [wireGet, wireSet]
+theorem find?_filter_ne (w : List (ConnId × Tag)) {c d : ConnId} (h : d ≠ c) :
+    (w.filter (fun p => p.1 != c)).find? (fun p => p.1 == d) = w.find? (fun p => p.1 == d) := by
+  induction w with
+  | nil => rfl
+  | cons p w ih => grind
+
+theorem wireGet_wireSet_ne (w) {c d : ConnId} (t) (h : d ≠ c) : wireGet (wireSet w c t) d = wireGet w d := by
+  simp only [wireGet, wireSet]
+  rw [List.find?_cons_of_neg (by simpa using fun e => h e.symm), find?_filter_ne w h]
+
+/-! ## Case analysis of one thread step -/
+
+syntax "tstep_cases " ident ident : tactic
+macro_rules
+  | `(tactic| tstep_cases $th $h) => `(tactic|
+    (rcases $th:ident with ⟨prog, pc, resp, leaked, results, sent⟩
+     cases pc <;> simp only [tstep, tstepPc] at $h:ident <;> (repeat' split at $h:ident) <;>
+       simp only [Option.some.injEq, Prod.mk.injEq, reduceCtorEq] at $h:ident <;>
+       obtain ⟨h1, h2⟩ := $h:ident <;> subst h1 h2))
+
+variable {cfg : Cfg} {tid : Nat} {sh sh' : Shared} {th th' : Thread}
+
+theorem tstep_nextId_le (h : tstep cfg tid sh th = some (sh', th')) : sh.nextId ≤ sh'.nextId := by
+  tstep_cases th h <;> simp
+
+theorem tstep_prov (h : tstep cfg tid sh th = some (sh', th')) :
+    ∀ c, c ∈ queueConns sh' ∨ c ∈ th'.owned →
+      (c ∈ queueConns sh ∨ c ∈ th.owned) ∨ (c = sh.nextId ∧ sh.nextId < sh'.nextId) := by
+  tstep_cases th h <;> simp [mem_queueConns, Thread.mem_owned, failPut_resp] <;> grind
+
+theorem tstep_nodup (h : tstep cfg tid sh th = some (sh', th'))
+    (hn : (queueConns sh ++ th.owned).Nodup)
+    (hlt : ∀ c, c ∈ queueConns sh ∨ c ∈ th.owned → c < sh.nextId) :
+    (queueConns sh' ++ th'.owned).Nodup := by
+  tstep_cases th h <;>
+    simp [queueConns, Thread.owned_eq, failPut_resp, List.nodup_append, List.nodup_cons] at hn hlt ⊢ <;>
+    first | exact hn | grind
+
+theorem tstep_open_sub (h : tstep cfg tid sh th = some (sh', th')) :
+    ∀ c ∈ sh'.openC, c ∈ sh.openC ∨ c ∈ th'.owned := by
+  tstep_cases th h <;> simp [Thread.mem_owned, failPut_resp] <;> grind
+
+/-- inside `release_conn` the response's back-reference has already been cleared -/
+def Thread.relOK (th : Thread) : Prop := th.pc.cont = some .rel → th.resp = none
+
+theorem tstep_relOK (h : tstep cfg tid sh th = some (sh', th')) (hr : th.relOK) : th'.relOK := by
+  tstep_cases th h <;> simp_all [Thread.relOK]
+
+/-- at the "pool is full" warning the discarded connection has already been closed -/
+def warnClosed (sh : Shared) (th : Thread) : Prop :=
+  ∀ c k, th.pc = .warnLoad (some c) k → c ∉ sh.openC
+
+theorem tstep_warnClosed (h : tstep cfg tid sh th = some (sh', th')) : warnClosed sh' th' := by
+  tstep_cases th h <;> simp [warnClosed] <;> grind
+
+theorem tstep_open_keep (h : tstep cfg tid sh th = some (sh', th')) (hr : th.relOK)
+    (hw : warnClosed sh th) :
+    ∀ c ∈ sh'.openC, (c ∈ queueConns sh ∨ c ∈ th.owned) → (c ∈ queueConns sh' ∨ c ∈ th'.owned) := by
+  tstep_cases th h <;>
+    simp [mem_queueConns, Thread.mem_owned, failPut_resp, Thread.relOK, warnClosed] at hr hw ⊢ <;> grind
+
+theorem tstep_open_nodup (h : tstep cfg tid sh th = some (sh', th')) (hn : sh.openC.Nodup) :
+    sh'.openC.Nodup := by
+  tstep_cases th h <;>
+    first | exact hn | exact closeConn_openC_nodup _ _ hn | exact openConn_openC_nodup _ _ hn
+
+theorem Thread.owned_length_le_slots (th : Thread) : th.owned.length ≤ th.slots := by
+  rcases th with ⟨prog, pc, resp, leaked, results, sent⟩
+  cases pc <;> simp [Thread.owned_eq, Thread.slots] <;> (try cases ‹Option ConnId›) <;> simp <;> omega
+
+theorem tstep_slots_block (h : tstep cfg tid sh th = some (sh', th')) (hb : cfg.block = true) :
+    sh'.queue.length + th'.slots ≤ sh.queue.length + th.slots := by
+  tstep_cases th h <;> simp_all [Thread.slots, failPut_resp] <;> grind
+
+theorem tstep_queue_le (h : tstep cfg tid sh th = some (sh', th'))
+    (hq : sh.queue.length ≤ cfg.maxsize) : sh'.queue.length ≤ cfg.maxsize := by
+  tstep_cases th h <;> simp_all <;> grind
+
+theorem tstep_wire_frame (h : tstep cfg tid sh th = some (sh', th')) :
+    ∀ c, c ∉ th.owned → wireGet sh'.wire c = wireGet sh.wire c := by
+  tstep_cases th h <;> simp [Thread.mem_owned]
+  intro c hc _ _
+  exact wireGet_wireSet_ne _ _ (Ne.symm hc)
+
+/-- a thread waiting for a response waits on a connection whose pending response is its own -/
+def recvOK (sh : Shared) (th : Thread) : Prop :=
+  ∀ c tag f l st, th.pc = .recv c tag f l st → wireGet sh.wire c = some tag
+
+theorem tstep_recvOK (h : tstep cfg tid sh th = some (sh', th')) : recvOK sh' th' := by
+  tstep_cases th h <;> simp [recvOK]
+  intro c a b f l
+  refine ⟨?_, ?_⟩ <;> (rintro rfl rfl rfl - - -; exact wireGet_wireSet_self ..)
+
+/-- the tag a thread waits for is its own: (its index, its request counter before the send) -/
+def tagOK (tid : Nat) (th : Thread) : Prop :=
+  ∀ c tag f l st, th.pc = .recv c tag f l st → tag.1 = tid ∧ tag.2 + 1 = th.sent
+
+theorem tstep_tagOK (h : tstep cfg tid sh th = some (sh', th')) (ht : tagOK tid th) :
+    tagOK tid th' := by
+  tstep_cases th h <;> simp [tagOK] at ht ⊢
+  grind
+
+theorem recvOK_frame (h : tstep cfg tid sh th = some (sh', th')) {th2 : Thread}
+    (hd : ∀ c ∈ th2.owned, c ∉ th.owned) (h2 : recvOK sh th2) : recvOK sh' th2 := by
+  intro c tag f l st hpc
+  rw [tstep_wire_frame h c (hd c (by simp [Thread.mem_owned, hpc]))]
+  exact h2 c tag f l st hpc
+
+theorem tstep_maxOpen (h : tstep cfg tid sh th = some (sh', th')) :
+    sh'.maxOpen = sh.maxOpen ∨ sh'.maxOpen = max sh.maxOpen sh'.openC.length := by
+  tstep_cases th h <;> simp
+  exact openConn_maxOpen _ _
+
+theorem tstep_pc_fullClose (h : tstep cfg tid sh th = some (sh', th')) {i k}
+    (hp : th'.pc = .fullClose i k) : th.pc = .putQ i k ∧ cfg.maxsize ≤ sh.queue.length := by
+  tstep_cases th h <;> simp_all
+
+theorem tstep_pc_warnLoad (h : tstep cfg tid sh th = some (sh', th')) {i k}
+    (hp : th'.pc = .warnLoad i k) : th.pc = .fullClose i k ∧ cfg.block = false := by
+  tstep_cases th h <;> simp_all
+
+/-- the result a finished `urlopen` carries in its continuation is a normal one -/
+def contOK (th : Thread) : Prop := ∀ r, th.pc.cont = some (.fin r) → r = .ok ∨ r = .failed
+
+theorem tstep_contOK (h : tstep cfg tid sh th = some (sh', th')) (hr : recvOK sh th)
+    (hk : contOK th) : contOK th' := by
+  tstep_cases th h <;> simp [contOK] at hk ⊢ <;> first | exact hk | grind | skip
+  all_goals (have := hr _ _ _ _ _ rfl; simp_all)
+
+theorem finish_results_mem {th : Thread} {r : Res} {p} (hp : p ∈ (finish th r).results) :
+    p ∈ th.results ∨ p.2 = r := by
+  unfold finish at hp; split at hp <;> simp_all; grind
+
+theorem applyCont_results_mem {th : Thread} {k : Cont} {p} (hp : p ∈ (applyCont th k).results) :
+    p ∈ th.results ∨ k = .fin p.2 ∨ (k = .rel ∧ p.2 = .ok) := by
+  cases k <;> simp [applyCont] at hp ⊢ <;> first | exact hp | (have := finish_results_mem hp; grind)
+
+theorem failPut_results_mem {th : Thread} {i k r p} (hp : p ∈ (failPut th i k r).results) :
+    p ∈ th.results ∨ p.2 = r := by
+  cases k <;> simp [failPut] at hp <;> (have := finish_results_mem hp; simpa using this)
+
+/-- the result classes a new entry of `results` can have, with the situation that produces the
+abnormal ones -/
+theorem tstep_results_mem (h : tstep cfg tid sh th = some (sh', th')) (hr : recvOK sh th)
+    (hk : contOK th) : ∀ p ∈ th'.results, p ∈ th.results ∨
+      p.2 = .ok ∨ p.2 = .closedPool ∨ p.2 = .emptyPool ∨ p.2 = .failed ∨
+      (p.2 = .fullPool ∧ cfg.block = true ∧ ∃ i k, th.pc = .fullClose i k) ∨
+      (p.2 = .internalErr ∧ sh.poolRef = none ∧ ((∃ i k, th.pc = .warnLoad i k) ∨ th.pc = .closeSwap)) := by
+  intro p hp
+  tstep_cases th h <;> simp [contOK, recvOK] at hr hk hp ⊢ <;>
+    first
+    | exact Or.inl hp
+    | (have := finish_results_mem hp; grind)
+    | (have := applyCont_results_mem hp; grind)
+    | (have := failPut_results_mem hp; grind)
+
+/-! ## Program counter vs. program -/
+
+def Op.kind : Op → Nat
+  | .req .. => 0
+  | .release => 1
+  | .close => 2
+
+def Cont.kind : Cont → Nat
+  | .rel => 1
+  | _ => 0
+
+/-- the kind of op a program counter belongs to -/
+def Pc.kind : Pc → Option Nat
+  | .idle => none
+  | .getCheck .. | .getLoad .. | .getQ .. | .send .. | .recv .. => some 0
+  | .putCheck _ k | .putLoad _ k | .putQ _ k | .fullClose _ k | .warnLoad _ k | .discard _ k => some k.kind
+  | .closeCheck | .closeSwap | .drain | .drainClose _ => some 2
+
+@[simp] theorem Pc.kind_idle : Pc.idle.kind = none := rfl
+@[simp] theorem Pc.kind_getCheck {f l s} : (Pc.getCheck f l s).kind = some 0 := rfl
+@[simp] theorem Pc.kind_getLoad {f l s} : (Pc.getLoad f l s).kind = some 0 := rfl
+@[simp] theorem Pc.kind_getQ {f l s} : (Pc.getQ f l s).kind = some 0 := rfl
+@[simp] theorem Pc.kind_send {c f l s} : (Pc.send c f l s).kind = some 0 := rfl
+@[simp] theorem Pc.kind_recv {c t f l s} : (Pc.recv c t f l s).kind = some 0 := rfl
+@[simp] theorem Pc.kind_putCheck {i k} : (Pc.putCheck i k).kind = some k.kind := rfl
+@[simp] theorem Pc.kind_putLoad {i k} : (Pc.putLoad i k).kind = some k.kind := rfl
+@[simp] theorem Pc.kind_putQ {i k} : (Pc.putQ i k).kind = some k.kind := rfl
+@[simp] theorem Pc.kind_fullClose {i k} : (Pc.fullClose i k).kind = some k.kind := rfl
+@[simp] theorem Pc.kind_warnLoad {i k} : (Pc.warnLoad i k).kind = some k.kind := rfl
+@[simp] theorem Pc.kind_discard {i k} : (Pc.discard i k).kind = some k.kind := rfl
+@[simp] theorem Pc.kind_closeCheck : Pc.closeCheck.kind = some 2 := rfl
+@[simp] theorem Pc.kind_closeSwap : Pc.closeSwap.kind = some 2 := rfl
+@[simp] theorem Pc.kind_drain : Pc.drain.kind = some 2 := rfl
+@[simp] theorem Pc.kind_drainClose {x} : (Pc.drainClose x).kind = some 2 := rfl
+@[simp] theorem Op.kind_req {f l s} : (Op.req f l s).kind = 0 := rfl
+@[simp] theorem Op.kind_release : Op.release.kind = 1 := rfl
+@[simp] theorem Op.kind_close : Op.close.kind = 2 := rfl
+@[simp] theorem Cont.kind_rel : Cont.rel.kind = 1 := rfl
+@[simp] theorem Cont.kind_fin {r} : (Cont.fin r).kind = 0 := rfl
+@[simp] theorem Cont.kind_retry {f l s} : (Cont.retry f l s).kind = 0 := rfl
+theorem Cont.kind_lt (k : Cont) : k.kind < 2 := by cases k <;> simp
+theorem Op.kind_eq_two {op : Op} : op.kind = 2 ↔ op = .close := by cases op <;> simp
+
+/-- while an op is running it is the head of the thread's program -/
+def progOK (th : Thread) : Prop :=
+  ∀ n, th.pc.kind = some n → ∃ op rest, th.prog = op :: rest ∧ op.kind = n
+
+@[simp] theorem finish_progOK (th : Thread) (r : Res) : progOK (finish th r) := by
+  simp [progOK]
+
+@[simp] theorem failPut_progOK (th : Thread) (i k r) : progOK (failPut th i k r) := by
+  simp [progOK]
+
+@[simp] theorem applyCont_prog_retry (th : Thread) (f l s) :
+    (applyCont th (.retry f l s)).prog = th.prog := rfl
+
+theorem applyCont_progOK {th : Thread} {k : Cont}
+    (h : ∃ op rest, th.prog = op :: rest ∧ op.kind = k.kind) : progOK (applyCont th k) := by
+  cases k <;> simp [applyCont, progOK] <;> simpa using h
+
+theorem tstep_progOK (h : tstep cfg tid sh th = some (sh', th')) (hp : progOK th) : progOK th' := by
+  tstep_cases th h <;>
+    first
+    | exact finish_progOK ..
+    | exact failPut_progOK ..
+    | (apply applyCont_progOK; simpa [progOK] using hp)
+    | (simp [progOK] at hp ⊢; try exact hp)
+
+/-! ## Which op a result belongs to -/
+
+theorem finish_results_head {th : Thread} {r : Res} {p} (hp : p ∈ (finish th r).results) :
+    p ∈ th.results ∨ ∃ rest, th.prog = p.1 :: rest := by
+  unfold finish at hp; split at hp <;> simp_all; grind
+
+theorem applyCont_results_head {th : Thread} {k : Cont} {p} (hp : p ∈ (applyCont th k).results) :
+    p ∈ th.results ∨ ∃ rest, th.prog = p.1 :: rest := by
+  cases k <;> simp [applyCont] at hp ⊢ <;> first | exact Or.inl hp | exact finish_results_head hp
+
+theorem failPut_results_head {th : Thread} {i k r p} (hp : p ∈ (failPut th i k r).results) :
+    p ∈ th.results ∨ ∃ rest, th.prog = p.1 :: rest := by
+  cases k <;> simp [failPut] at hp <;> (have := finish_results_head hp; simpa using this)
+
+/-- a new entry of `results` records the op at the head of the program -/
+theorem tstep_results_head (h : tstep cfg tid sh th = some (sh', th')) :
+    ∀ p ∈ th'.results, p ∈ th.results ∨ ∃ rest, th.prog = p.1 :: rest := by
+  intro p hp
+  tstep_cases th h <;> simp at hp ⊢ <;>
+    first
+    | exact Or.inl hp
+    | (have := finish_results_head hp; simpa using this)
+    | (have := applyCont_results_head hp; simpa using this)
+    | (have := failPut_results_head hp; simpa using this)
+
+theorem finish_results_mono {th : Thread} {r : Res} {p} (hp : p ∈ th.results) :
+    p ∈ (finish th r).results := by
+  unfold finish; split <;> simp_all
+
+theorem applyCont_results_mono {th : Thread} {k : Cont} {p} (hp : p ∈ th.results) :
+    p ∈ (applyCont th k).results := by
+  cases k <;> simp [applyCont] <;> first | exact hp | exact finish_results_mono hp
+
+theorem failPut_results_mono {th : Thread} {i k r p} (hp : p ∈ th.results) :
+    p ∈ (failPut th i k r).results := by
+  cases k <;> simp [failPut] <;> exact finish_results_mono (th := { th with resp := _ }) hp
+
+theorem tstep_results_mono (h : tstep cfg tid sh th = some (sh', th')) :
+    ∀ p ∈ th.results, p ∈ th'.results := by
+  intro p hp
+  tstep_cases th h <;> simp at hp ⊢ <;>
+    first
+    | exact hp
+    | exact finish_results_mono hp
+    | exact applyCont_results_mono hp
+    | exact failPut_results_mono hp
+
+/-! ## `close` ops: how many there are, and who swapped `self.pool` -/
+
+/-- `close` ops of a thread: finished + still to run (constant along every run) -/
+def closesIn (l : List Op) : Nat := l.countP (fun o => decide (o = Op.close))
+
+def opCloses (th : Thread) : Nat := closesIn (th.results.map Prod.fst) + closesIn th.prog
+
+theorem finish_opCloses (th : Thread) (r : Res) : opCloses (finish th r) = opCloses th := by
+  unfold finish; split
+  · rename_i op rest hprog
+    simp only [opCloses, closesIn, hprog, List.map_append, List.countP_append, List.countP_cons,
+      List.map_cons, List.map_nil, List.countP_nil]
+    omega
+  · rfl
+
+@[simp] theorem applyCont_opCloses (th : Thread) (k : Cont) : opCloses (applyCont th k) = opCloses th := by
+  cases k <;> simp [applyCont, finish_opCloses] <;> rfl
+
+@[simp] theorem failPut_opCloses (th : Thread) (i k r) : opCloses (failPut th i k r) = opCloses th := by
+  cases k <;> simp [failPut, finish_opCloses] <;> rfl
+
+theorem tstep_opCloses (h : tstep cfg tid sh th = some (sh', th')) : opCloses th' = opCloses th := by
+  tstep_cases th h <;> first | rfl | (simp [finish_opCloses] <;> rfl)
+
+/-- the thread has executed `old_pool, self.pool = self.pool, None` in a `close` op -/
+def swapper (th : Thread) : Prop :=
+  th.pc = .drain ∨ (∃ x, th.pc = .drainClose x) ∨ ∃ r, (Op.close, r) ∈ th.results
+
+theorem tstep_poolRef_none (h : tstep cfg tid sh th = some (sh', th')) (hn : sh.poolRef = none) :
+    sh'.poolRef = none := by
+  tstep_cases th h <;> simp_all
+
+theorem tstep_swapper_new (h : tstep cfg tid sh th = some (sh', th')) (h1 : sh.poolRef ≠ none)
+    (h2 : sh'.poolRef = none) : swapper th' := by
+  tstep_cases th h <;> simp_all [swapper]
+
+theorem tstep_swapper_keep (h : tstep cfg tid sh th = some (sh', th')) (hp : progOK th)
+    (hs : swapper th) : swapper th' := by
+  rcases hs with hs | ⟨x, hs⟩ | ⟨r, hs⟩
+  · rcases th with ⟨prog, pc, resp, leaked, results, sent⟩
+    simp only at hs; subst hs
+    obtain ⟨op, rest, hprog, hk⟩ := hp 2 rfl
+    rw [Op.kind_eq_two] at hk
+    simp only at hprog; subst hprog hk
+    simp only [tstep, tstepPc] at h
+    split at h <;> simp only [Option.some.injEq, Prod.mk.injEq] at h <;> obtain ⟨-, rfl⟩ := h
+    · exact Or.inr (Or.inl ⟨_, rfl⟩)
+    · exact Or.inr (Or.inr ⟨.ok, by simp [finish]⟩)
+  · rcases th with ⟨prog, pc, resp, leaked, results, sent⟩
+    simp only at hs; subst hs
+    simp only [tstep, tstepPc, Option.some.injEq, Prod.mk.injEq] at h
+    obtain ⟨-, rfl⟩ := h
+    exact Or.inl rfl
+  · exact Or.inr (Or.inr ⟨r, tstep_results_mono h _ hs⟩)
+
 end U3.PoolConc
